@@ -293,6 +293,249 @@ M('C09', 'type-map', PT, "{1: 0, 2: 1, 4: 2, 0: 3}[self.llen]", "{1: 0, 2: 1, 4:
 T('C09', 'twin-thresholds-flipped', TY, "            if 192 > nl:\n                return Header.int_to_bytes(nl)", "            if nl < 192:\n                return Header.int_to_bytes(nl)")
 T('C09', 'twin-widen-form', TY, "            while 0 < llen < 4 and self.length >= (1 << (8 * llen)):", "            while 0 < llen < 4 and self.length > (1 << (8 * llen)) - 1:")
 
+# --- C09 hardening: behaviour-preserving rewrites of every anchored codec (must stay silent) ...
+_ENC = ("        def _new_length(nl):\n            if 192 > nl:\n                return Header.int_to_bytes(nl)\n\n            elif 8384 > nl:\n"
+        "                elen = ((nl & 0xFF00) + (192 << 8)) + ((nl & 0xFF) - 192)\n                return Header.int_to_bytes(elen, 2)\n\n"
+        "            return b'\\xFF' + Header.int_to_bytes(nl, 4)\n\n        def _old_length(nl, llen):\n"
+        "            return Header.int_to_bytes(nl, llen) if llen > 0 else b''\n\n        return _new_length(length) if nhf else _old_length(length, llen)\n")
+T('C09', 'twin-enc-flat-high-low', TY, _ENC,
+  "        if not nhf:\n            if llen > 0:\n                return Header.int_to_bytes(length, llen)\n            return b''\n\n        if 192 > length:\n"
+  "            return Header.int_to_bytes(length)\n\n        if 8384 > length:\n            high = (length & 0xFF00) + (192 << 8)\n            low = (length & 0xFF) - 192\n"
+  "            return Header.int_to_bytes(high + low, 2)\n\n        return b'\\xFF' + Header.int_to_bytes(length, 4)\n")
+T('C09', 'twin-enc-divmod-bytes', TY, _ENC,
+  "        if not nhf:\n            return length.to_bytes(max(llen, (length.bit_length() + 7) // 8), 'big') if llen > 0 else b''\n        if length < 192:\n"
+  "            return bytes([length])\n        if length < 8384:\n            hi, lo = divmod(length - 192, 256)\n            return bytes([hi + 192, lo])\n"
+  "        return struct.pack('>BI', 0xFF, length) if length < (1 << 32) else b'\\xFF' + Header.int_to_bytes(length, 4)\n",
+  more=[(TY, "import abc\n", "import abc\nimport struct\n")])
+_PARSE_LEN_CALLS = "            part_len, size, partial = _parse_len(b)\n            del b[:size]\n\n            if partial:\n                total = part_len\n                while partial:\n                    part_len, size, partial = _parse_len(b, total)\n                    del b[total:total + size]\n                    total += part_len\n                self._len = total\n            else:\n                self._len = part_len\n"
+T('C09', 'twin-dec-merged-tail', TY, _PARSE_LEN_CALLS,
+  "            total, size, partial = _parse_len(b)\n            del b[:size]\n\n            while partial:\n                part_len, size, partial = _parse_len(b, total)\n"
+  "                del b[total:total + size]\n                total += part_len\n\n            self._len = total\n")
+T('C09', 'twin-dec-while-true', TY, _PARSE_LEN_CALLS,
+  "            chunk, width, more = _parse_len(b)\n            del b[:width]\n            body = chunk\n            while True:\n                if not more:\n                    break\n"
+  "                chunk, width, more = _parse_len(b, body)\n                del b[body:body + width]\n                body = body + chunk\n            self._len = body\n")
+T('C09', 'twin-dec-partial-sub', TY, "                    return (1 << (fo & 0x1f), 1, True)", "                    return (2 ** (fo - 224), 1, True)")
+T('C09', 'twin-dec-two-octet-rfc-form', TY, "                    dlen = self.bytes_to_int(b[offset:offset + 2])\n                    return (((dlen - (192 << 8)) & 0xFF00) + ((dlen & 0xFF) + 192), 2, False)",
+  "                    return (((fo - 192) << 8) + b[offset + 1] + 192, 2, False)")
+T('C09', 'twin-dec-from-bytes', TY, "                    return (self.bytes_to_int(b[offset + 1:offset + 5]), 5, False)", "                    return (int.from_bytes(b[offset + 1:offset + 5], 'big'), 5, False)")
+T('C09', 'twin-llen-from-encoder', TY, "            if 192 > self.length:\n                return 1\n\n            elif 8384 > self.length:  # >= 192 is implied\n                return 2\n\n            else:\n                return 5\n",
+  "            return len(self.encode_length(self.length))\n")
+T('C09', 'twin-llen-old-ifs', TY, "            llen = self._llen\n            while 0 < llen < 4 and self.length >= (1 << (8 * llen)):\n                llen *= 2\n            return llen",
+  "            width = self._llen\n            if width == 1 and self.length > 0xFF:\n                width = 2\n            if width == 2 and self.length > 0xFFFF:\n                width = 4\n            return width")
+T('C09', 'twin-lenmap-class-consts', TY, "            self._llen = {0: 1, 1: 2, 2: 4, 3: 0}[val]", "            self._llen = self._LENTYPE_TO_LLEN[val]",
+  more=[(TY, "class Header(Field):\n    @staticmethod\n    def encode_length", "class Header(Field):\n    _LENTYPE_TO_LLEN = {0: 1, 1: 2, 2: 4, 3: 0}\n\n    @staticmethod\n    def encode_length"),
+        (PT, "        tag |= (self.tag) if self._lenfmt else ((self.tag << 2) | {1: 0, 2: 1, 4: 2, 0: 3}[self.llen])\n\n        _bytes = bytearray(self.int_to_bytes(tag))\n        _bytes += self.encode_length(self.length, self._lenfmt, self.llen)\n        return _bytes",
+         "        if self._lenfmt:\n            tag |= self.tag\n        else:\n            tag |= (self.tag << 2) | self._LLEN_TO_LENTYPE[self.llen]\n\n        return bytearray(self.int_to_bytes(tag)) + self.encode_length(self.length, self._lenfmt, self.llen)"),
+        (PT, "    def __bytearray__(self):\n        tag = 0x80 | (self._lenfmt << 6)", "    _LLEN_TO_LENTYPE = {1: 0, 2: 1, 4: 2, 0: 3}\n\n    def __bytearray__(self):\n        tag = 0x80 | (self._lenfmt << 6)")])
+T('C09', 'twin-lentype-arith', PT, "{1: 0, 2: 1, 4: 2, 0: 3}[self.llen]", "(self.llen.bit_length() - 1) % 4")
+T('C09', 'twin-old-len-local-width', TY, "            if self.llen > 0:\n                self._len = self.bytes_to_int(b[:self.llen])\n                del b[:self.llen]\n",
+  "            width = self.llen\n            if width > 0:\n                field = b[:width]\n                del b[:width]\n                self._len = self.bytes_to_int(field)\n")
+T('C09', 'twin-packet-parse-first-octet', PT, "        self._lenfmt = ((packet[0] & 0x40) >> 6)\n        self.tag = packet[0]\n        if self._lenfmt == 0:\n            self.llen = (packet[0] & 0x03)\n        del packet[0]\n\n        if (self._lenfmt == 0 and self.llen > 0) or self._lenfmt == 1:\n            self.length = packet\n\n        else:\n            # indeterminate packet length\n            self.length = len(packet)",
+  "        first_octet = packet[0]\n        self._lenfmt = (first_octet >> 6) & 1\n        self.tag = first_octet\n        if self._lenfmt == 0:\n            self.llen = first_octet % 4\n        del packet[0]\n\n        has_length_field = self._lenfmt == 1 or (self._lenfmt == 0 and self.llen > 0)\n        if not has_length_field:\n            self.length = len(packet)\n\n        else:\n            self.length = packet")
+T('C09', 'twin-tag-int-if-shift', PT, "        _tag = (val & 0x3F) if self._lenfmt else ((val & 0x3C) >> 2)", "        if self._lenfmt:\n            _tag = val % 64\n        else:\n            _tag = (val >> 2) & 0x0F")
+T('C09', 'twin-packet-header-append', PT, "        _bytes = bytearray(self.int_to_bytes(tag))\n        _bytes += self.encode_length(self.length, self._lenfmt, self.llen)\n        return _bytes",
+  "        _bytes = bytearray()\n        _bytes.append(tag)\n        _bytes.extend(self.encode_length(self.length, nhf=self._lenfmt, llen=self.llen))\n        return _bytes")
+T('C09', 'twin-mpi-readable', PT, "        mpi = num\n\n        if isinstance(num, (bytes, bytearray)):\n            if isinstance(num, bytes):  # pragma: no cover\n                num = bytearray(num)\n\n            fl = ((MPIs.bytes_to_int(num[:2]) + 7) // 8)\n            del num[:2]\n\n            mpi = MPIs.bytes_to_int(num[:fl])\n            del num[:fl]\n\n        return super(MPI, cls).__new__(cls, mpi)",
+  "        value = num\n\n        if isinstance(num, (bytes, bytearray)):\n            if isinstance(num, bytes):  # pragma: no cover\n                num = bytearray(num)\n\n            nbits = MPIs.bytes_to_int(num[:2])\n            nbytes = -(-nbits // 8)\n            del num[:2]\n\n            value = int.from_bytes(num[:nbytes], 'big')\n            del num[:nbytes]\n\n        return super(MPI, cls).__new__(cls, value)")
+T('C09', 'twin-mpi-writer-temps', PT, "        return MPIs.int_to_bytes(self.bit_length(), 2) + MPIs.int_to_bytes(self, self.byte_length())",
+  "        bit_count = MPIs.int_to_bytes(self.bit_length(), minlen=2)\n        magnitude = MPIs.int_to_bytes(self, minlen=self.byte_length())\n        return bit_count + magnitude")
+T('C09', 'twin-mpi-bytelen-shift', PT, "        return ((self.bit_length() + 7) // 8)", "        return (self.bit_length() + 7) >> 3")
+T('C09', 'twin-count-temps', FL, "        return (16 + (self._count & 15)) << ((self._count >> 4) + 6)", "        coded = self._count\n        mantissa = 16 + (coded & 15)\n        exponent = (coded >> 4) + 6\n        return mantissa << exponent",
+  more=[(FL, "        if val < 0 or val > 255:  # pragma: no cover", "        if not (0 <= val <= 255):  # pragma: no cover")])
+T('C09', 'twin-time-temps-kw', SS, "        _bytes += self.int_to_bytes(calendar.timegm(self.created.utctimetuple()), 4)", "        utc_tuple = self.created.utctimetuple()\n        seconds = calendar.timegm(utc_tuple)\n        _bytes += self.int_to_bytes(seconds, minlen=4)",
+  more=[(SS, "    def created_int(self, val):\n        self.created = datetime.fromtimestamp(val, timezone.utc)", "    def created_int(self, seconds):\n        when = datetime.fromtimestamp(seconds, tz=timezone.utc)\n        self.created = when"),
+        (SS, "    def created_bytearray(self, val):\n        self.created = self.bytes_to_int(val)", "    def created_bytearray(self, octets):\n        seconds = self.bytes_to_int(octets)\n        self.created = seconds")])
+T('C09', 'twin-time-reader-utcfrom-replace', PK, "    def mtime_int(self, val):\n        self.mtime = datetime.fromtimestamp(val, timezone.utc)", "    def mtime_int(self, val):\n        self.mtime = datetime.utcfromtimestamp(val).replace(tzinfo=timezone.utc)")
+T('C09', 'twin-expiry-temp', SS, "        _bytes += self.int_to_bytes(int(self.expires.total_seconds()), 4)", "        seconds = int(self.expires.total_seconds())\n        _bytes += self.int_to_bytes(seconds, minlen=4)")
+T('C09', 'twin-subheader-temps', ST, "        _bytes = bytearray(self.encode_length(self.length))\n        _bytes += self.int_to_bytes((int(self.critical) << 7) + self.typeid)\n        return _bytes",
+  "        _bytes = bytearray(self.encode_length(self.length))\n        critical_bit = 0x80 if self.critical else 0\n        return _bytes + bytes([critical_bit | self.typeid])")
+T('C09', 'twin-subheader-typeid-bin', ST, "        v = self.bytes_to_int(val)\n        self.typeid = v\n        self.critical = bool(v & 0x80)", "        octet = val[0]\n        self.critical = octet >= 0x80\n        self.typeid = octet")
+T('C09', 'twin-subheader-parse-pop', ST, "        self.typeid = packet[:1]\n        del packet[:1]", "        type_octet = packet[:1]\n        del packet[0]\n        self.typeid = type_octet")
+T('C09', 'twin-int-to-bytes-ifs', TY, "        blen = max(minlen, PGPObject.int_byte_len(i), 1)\n\n        return i.to_bytes(blen, order)",
+  "        blen = PGPObject.int_byte_len(i)\n        if blen < minlen:\n            blen = minlen\n        if blen < 1:\n            blen = 1\n        return i.to_bytes(blen, byteorder=order)")
+T('C09', 'twin-int-byte-len-ceil', TY, "        return (i.bit_length() + 7) // 8", "        return -(-i.bit_length() // 8)")
+
+# --- ... and defects of the same constructs (each must be reported)
+M('C09', 'enc-five-octet-prefix', TY, "            return b'\\xFF' + Header.int_to_bytes(nl, 4)", "            return b'\\xFE' + Header.int_to_bytes(nl, 4)", 'C09.1')
+M('C09', 'enc-five-octet-width-3', TY, "            return b'\\xFF' + Header.int_to_bytes(nl, 4)", "            return b'\\xFF' + Header.int_to_bytes(nl, 3)", 'C09.1')
+M('C09', 'enc-two-octet-le-192', TY, "            if 192 > nl:\n                return Header.int_to_bytes(nl)", "            if 192 >= nl:\n                return Header.int_to_bytes(nl)", 'C09.1')
+M('C09', 'enc-two-octet-mask', TY, "                elen = ((nl & 0xFF00) + (192 << 8)) + ((nl & 0xFF) - 192)", "                elen = ((nl & 0x0F00) + (192 << 8)) + ((nl & 0xFF) - 192)", 'C09.1')
+M('C09', 'dec-five-reads-3', TY, "                    return (self.bytes_to_int(b[offset + 1:offset + 5]), 5, False)", "                    return (self.bytes_to_int(b[offset + 1:offset + 4]), 5, False)", 'C09.1')
+M('C09', 'dec-five-size-4', TY, "                    return (self.bytes_to_int(b[offset + 1:offset + 5]), 5, False)", "                    return (self.bytes_to_int(b[offset + 1:offset + 5]), 4, False)", 'C09.1')
+M('C09', 'dec-two-size-1', TY, "((dlen & 0xFF) + 192), 2, False)", "((dlen & 0xFF) + 192), 1, False)", 'C09.1')
+M('C09', 'dec-partial-2-shl', TY, "                    return (1 << (fo & 0x1f), 1, True)", "                    return (2 << (fo & 0x1f), 1, True)", 'C09.1')
+M('C09', 'dec-partial-not-flagged', TY, "                    return (1 << (fo & 0x1f), 1, True)", "                    return (1 << (fo & 0x1f), 1, False)", 'C09.1')
+M('C09', 'dec-255-is-partial', TY, "                elif 255 > fo:  # >= 224 is implied", "                elif 255 >= fo:  # >= 224 is implied", 'C09.1')
+M('C09', 'llen-five-as-4', TY, "            else:\n                return 5\n", "            else:\n                return 4\n", 'C09.1')
+M('C09', 'llen-192-boundary', TY, "            if 192 > self.length:\n                return 1", "            if 192 >= self.length:\n                return 1", 'C09.1')
+M('C09', 'old-widen-stops-at-2', TY, "            while 0 < llen < 4 and self.length >= (1 << (8 * llen)):", "            while 0 < llen < 2 and self.length >= (1 << (8 * llen)):", 'C09.2')
+M('C09', 'old-widen-plus-1', TY, "                llen *= 2\n            return llen", "                llen += 1\n            return llen", 'C09.2')
+M('C09', 'old-widen-bits-7', TY, "            while 0 < llen < 4 and self.length >= (1 << (8 * llen)):", "            while 0 < llen < 4 and self.length >= (1 << (7 * llen)):", 'C09.2')
+M('C09', 'old-reader-map', TY, "            self._llen = {0: 1, 1: 2, 2: 4, 3: 0}[val]", "            self._llen = {0: 1, 1: 2, 2: 4, 3: 1}[val]", 'C09.2')
+M('C09', 'old-reader-no-consume', TY, "                self._len = self.bytes_to_int(b[:self.llen])\n                del b[:self.llen]\n", "                self._len = self.bytes_to_int(b[:self.llen])\n", 'C09.2')
+M('C09', 'old-reader-consume-1', TY, "                del b[:self.llen]\n", "                del b[:1]\n", 'C09.2')
+M('C09', 'old-enc-ge-0', TY, "            return Header.int_to_bytes(nl, llen) if llen > 0 else b''", "            return Header.int_to_bytes(nl, llen) if llen >= 0 else b''", 'C09.2')
+M('C09', 'old-writer-width-from-parsed', PT, "        _bytes += self.encode_length(self.length, self._lenfmt, self.llen)", "        _bytes += self.encode_length(self.length, self._lenfmt, self._llen)", 'C09.2')
+M('C09', 'mpi-count-consume-1', PT, "            fl = ((MPIs.bytes_to_int(num[:2]) + 7) // 8)\n            del num[:2]", "            fl = ((MPIs.bytes_to_int(num[:2]) + 7) // 8)\n            del num[:1]", 'C09.3')
+M('C09', 'mpi-magnitude-not-consumed', PT, "            mpi = MPIs.bytes_to_int(num[:fl])\n            del num[:fl]\n", "            mpi = MPIs.bytes_to_int(num[:fl])\n", 'C09.3')
+M('C09', 'mpi-floor', PT, "            fl = ((MPIs.bytes_to_int(num[:2]) + 7) // 8)", "            fl = (MPIs.bytes_to_int(num[:2]) // 8)", 'C09.3')
+M('C09', 'mpi-writer-count-1-octet', PT, "        return MPIs.int_to_bytes(self.bit_length(), 2) + MPIs.int_to_bytes(self, self.byte_length())", "        return MPIs.int_to_bytes(self.bit_length(), 1) + MPIs.int_to_bytes(self, self.byte_length())", 'C09.3')
+M('C09', 'mpi-writer-byte-count', PT, "        return MPIs.int_to_bytes(self.bit_length(), 2) + MPIs.int_to_bytes(self, self.byte_length())", "        return MPIs.int_to_bytes(self.byte_length(), 2) + MPIs.int_to_bytes(self, self.byte_length())", 'C09.3')
+M('C09', 'mpi-len-plus-1', PT, "        return self.byte_length() + 2", "        return self.byte_length() + 1", 'C09.3')
+M('C09', 'count-mask-7', FL, "        return (16 + (self._count & 15)) << ((self._count >> 4) + 6)", "        return (16 + (self._count & 7)) << ((self._count >> 4) + 6)", 'C09.4')
+M('C09', 'count-shift-3', FL, "        return (16 + (self._count & 15)) << ((self._count >> 4) + 6)", "        return (16 + (self._count & 15)) << ((self._count >> 3) + 6)", 'C09.4')
+M('C09', 'count-setter-256', FL, "        if val < 0 or val > 255:  # pragma: no cover", "        if val < 0 or val > 256:  # pragma: no cover", 'C09.4')
+M('C09', 'count-setter-negative', FL, "        if val < 0 or val > 255:  # pragma: no cover", "        if val > 255:  # pragma: no cover", 'C09.4')
+M('C09', 'time-mktime', PK, "        _bytes += self.int_to_bytes(calendar.timegm(self.created.utctimetuple()), 4)", "        _bytes += self.int_to_bytes(int(time.mktime(self.created.utctimetuple())), 4)", 'C09.5')
+M('C09', 'time-temp-timetuple', PK, "        fp.update(self.int_to_bytes(calendar.timegm(self.created.utctimetuple()), 4))", "        tt = self.created.timetuple()\n        fp.update(self.int_to_bytes(calendar.timegm(tt), 4))", 'C09.5')
+M('C09', 'reader-utcfromtimestamp-naive', SS, "    def created_int(self, val):\n        self.created = datetime.fromtimestamp(val, timezone.utc)", "    def created_int(self, val):\n        self.created = datetime.utcfromtimestamp(val)", 'C09.5')
+M('C09', 'reader-bytes-3', PK, "    def mtime_bin(self, val):\n        self.mtime = self.bytes_to_int(val)", "    def mtime_bin(self, val):\n        self.mtime = self.bytes_to_int(val[:3])", 'C09.5')
+M('C09', 'expiry-2-octets', SS, "        _bytes += self.int_to_bytes(int(self.expires.total_seconds()), 4)", "        _bytes += self.int_to_bytes(int(self.expires.total_seconds()), 2)", 'C09.5')
+M('C09', 'sub-critical-mask-40', ST, "        self.critical = bool(v & 0x80)", "        self.critical = bool(v & 0x40)", 'C09.6')
+M('C09', 'sub-type-not-consumed', ST, "        self.typeid = packet[:1]\n        del packet[:1]", "        self.typeid = packet[:1]", 'C09.6')
+M('C09', 'sub-len-plus-2', ST, "    def __len__(self):\n        return self.llen + 1", "    def __len__(self):\n        return self.llen + 2", 'C09.6')
+M('C09', 'sub-critical-or-typeid-swapped', ST, "        _bytes += self.int_to_bytes((int(self.critical) << 7) + self.typeid)", "        _bytes += self.int_to_bytes((self.typeid << 1) + int(self.critical))", 'C09.6')
+M('C09', 'int-byte-len-plus-8', TY, "        return (i.bit_length() + 7) // 8", "        return (i.bit_length() + 8) // 8", 'C09.7')
+M('C09', 'bytes-to-int-little', TY, "    def bytes_to_int(b, order='big'):", "    def bytes_to_int(b, order='little'):", 'C09.7')
+M('C09', 'int-to-bytes-default-2', TY, "    def int_to_bytes(i, minlen=1, order='big'):", "    def int_to_bytes(i, minlen=2, order='big'):", 'C09.7')
+M('C09', 'tag-format-bit-5', PT, "        tag = 0x80 | (self._lenfmt << 6)", "        tag = 0x80 | (self._lenfmt << 5)", 'C09.8')
+M('C09', 'parse-format-bit-5', PT, "        self._lenfmt = ((packet[0] & 0x40) >> 6)", "        self._lenfmt = ((packet[0] & 0x20) >> 5)", 'C09.8')
+M('C09', 'parse-lentype-mask-1', PT, "            self.llen = (packet[0] & 0x03)", "            self.llen = (packet[0] & 0x01)", 'C09.8')
+M('C09', 'parse-type3-has-length', PT, "        if (self._lenfmt == 0 and self.llen > 0) or self._lenfmt == 1:", "        if (self._lenfmt == 0 and self.llen >= 0) or self._lenfmt == 1:", 'C09.8')
+M('C09', 'parse-tag-octet-kept', PT, "            self.llen = (packet[0] & 0x03)\n        del packet[0]\n", "            self.llen = (packet[0] & 0x03)\n", 'C09.8')
+M('C09', 'old-tag-mask-38', PT, "        _tag = (val & 0x3F) if self._lenfmt else ((val & 0x3C) >> 2)", "        _tag = (val & 0x3F) if self._lenfmt else ((val & 0x38) >> 2)", 'C09.8')
+M('C09', 'partial-total-overwritten', TY, "                    total += part_len\n                self._len = total", "                    total = part_len\n                self._len = total", 'C09.8')
+M('C09', 'partial-del-at-zero', TY, "                    del b[total:total + size]", "                    del b[:size]", 'C09.8')
+M('C09', 'partial-first-not-counted', TY, "                total = part_len\n                while partial:", "                total = 0\n                while partial:", 'C09.8')
+
+# --- C09: whole-function rewrites (helpers as static methods / one private reader method and a single loop) and defects inside them
+_ENC_DEF = ('    @staticmethod\n'
+    '    def encode_length(length, nhf=True, llen=1):\n'
+    '        def _new_length(nl):\n'
+    '            if 192 > nl:\n'
+    '                return Header.int_to_bytes(nl)\n'
+    '\n'
+    '            elif 8384 > nl:\n'
+    '                elen = ((nl & 0xFF00) + (192 << 8)) + ((nl & 0xFF) - 192)\n'
+    '                return Header.int_to_bytes(elen, 2)\n'
+    '\n'
+    "            return b'\\xFF' + Header.int_to_bytes(nl, 4)\n"
+    '\n'
+    '        def _old_length(nl, llen):\n'
+    "            return Header.int_to_bytes(nl, llen) if llen > 0 else b''\n"
+    '\n'
+    '        return _new_length(length) if nhf else _old_length(length, llen)\n'
+    '\n')
+_ENC_STATIC = ('    _ONE_OCTET_LIMIT = 192\n'
+    '    _TWO_OCTET_LIMIT = 8384\n'
+    '\n'
+    '    @staticmethod\n'
+    '    def _encode_new(n):\n'
+    '        if n < Header._ONE_OCTET_LIMIT:\n'
+    '            return bytes(bytearray([n]))\n'
+    '        if n < Header._TWO_OCTET_LIMIT:\n'
+    '            n -= Header._ONE_OCTET_LIMIT\n'
+    '            return bytes(bytearray([(n >> 8) + 192, n & 0xFF]))\n'
+    "        out = bytearray(b'\\xFF')\n"
+    '        out += Header.int_to_bytes(n, minlen=4)\n'
+    '        return bytes(out)\n'
+    '\n'
+    '    @staticmethod\n'
+    '    def _encode_old(n, width):\n'
+    '        if width <= 0:\n'
+    "            return b''\n"
+    '        return Header.int_to_bytes(n, width)\n'
+    '\n'
+    '    @staticmethod\n'
+    '    def encode_length(length, nhf=True, llen=1):\n'
+    '        if nhf:\n'
+    '            return Header._encode_new(length)\n'
+    '        return Header._encode_old(length, llen)\n'
+    '\n')
+_DEC_DEF = ('    @length.register(bytes)\n'
+    '    @length.register(bytearray)\n'
+    '    def length_bin(self, val):\n'
+    '        def _new_len(b):\n'
+    '            def _parse_len(a, offset=0):\n'
+    '                # returns (the parsed length, size of length field, whether the length was of partial type)\n'
+    '                fo = a[offset]\n'
+    '\n'
+    '                if 192 > fo:\n'
+    '                    return (self.bytes_to_int(a[offset:offset + 1]), 1, False)\n'
+    '\n'
+    '                elif 224 > fo:  # >= 192 is implied\n'
+    '                    dlen = self.bytes_to_int(b[offset:offset + 2])\n'
+    '                    return (((dlen - (192 << 8)) & 0xFF00) + ((dlen & 0xFF) + 192), 2, False)\n'
+    '\n'
+    '                elif 255 > fo:  # >= 224 is implied\n'
+    '                    # this is a partial-length header\n'
+    '                    return (1 << (fo & 0x1f), 1, True)\n'
+    '\n'
+    '                elif 255 == fo:\n'
+    '                    return (self.bytes_to_int(b[offset + 1:offset + 5]), 5, False)\n'
+    '\n'
+    '                else:  # pragma: no cover\n'
+    '                    raise ValueError("Malformed length: 0x{:02x}".format(fo))\n'
+    '\n'
+    '            part_len, size, partial = _parse_len(b)\n'
+    '            del b[:size]\n'
+    '\n'
+    '            if partial:\n'
+    '                total = part_len\n'
+    '                while partial:\n'
+    '                    part_len, size, partial = _parse_len(b, total)\n'
+    '                    del b[total:total + size]\n'
+    '                    total += part_len\n'
+    '                self._len = total\n'
+    '            else:\n'
+    '                self._len = part_len\n'
+    '\n'
+    '        def _old_len(b):\n'
+    '            if self.llen > 0:\n'
+    '                self._len = self.bytes_to_int(b[:self.llen])\n'
+    '                del b[:self.llen]\n'
+    '\n'
+    '            else:  # pragma: no cover\n'
+    '                self._len = 0\n'
+    '\n'
+    '        _new_len(val) if self._lenfmt == 1 else _old_len(val)\n'
+    '\n')
+_DEC_METHOD = ('    def _read_new_length_field(self, buf, at):\n'
+    '        first = buf[at]\n'
+    '        if first < 192:\n'
+    '            return first, 1, False\n'
+    '        if first < 224:\n'
+    '            return ((first - 192) << 8) + buf[at + 1] + 192, 2, False\n'
+    '        if first == 255:\n'
+    '            return self.bytes_to_int(buf[at + 1:at + 5]), 5, False\n'
+    '        return 1 << (first & 0x1F), 1, True\n'
+    '\n'
+    '    @length.register(bytes)\n'
+    '    @length.register(bytearray)\n'
+    '    def length_bin(self, val):\n'
+    '        if self._lenfmt != 1:\n'
+    '            width = self.llen\n'
+    '            self._len = self.bytes_to_int(val[:width]) if width > 0 else 0\n'
+    '            if width > 0:\n'
+    '                del val[:width]\n'
+    '            return\n'
+    '\n'
+    '        body_octets = 0\n'
+    '        more = True\n'
+    '        while more:\n'
+    '            chunk, width, more = self._read_new_length_field(val, body_octets)\n'
+    '            del val[body_octets:body_octets + width]\n'
+    '            body_octets += chunk\n'
+    '        self._len = body_octets\n'
+    '\n')
+T('C09', 'twin-enc-static-helpers', TY, _ENC_DEF, _ENC_STATIC)
+T('C09', 'twin-dec-reader-method-single-loop', TY, _DEC_DEF, _DEC_METHOD)
+T('C09', 'twin-enc-dec-rewritten', TY, _ENC_DEF, _ENC_STATIC, more=[(TY, _DEC_DEF, _DEC_METHOD)])
+M('C09', 'rewritten-dec-del-at-zero', TY, _DEC_DEF, _DEC_METHOD.replace("del val[body_octets:body_octets + width]", "del val[:width]"), 'C09.8')
+M('C09', 'rewritten-dec-224', TY, _DEC_DEF, _DEC_METHOD.replace("if first < 224:", "if first <= 224:"), 'C09.1')
+M('C09', 'rewritten-enc-limit-8383', TY, _ENC_DEF, _ENC_STATIC.replace("_TWO_OCTET_LIMIT = 8384", "_TWO_OCTET_LIMIT = 8383"), 'C09.1')
+M('C09', 'rewritten-enc-high-octet', TY, _ENC_DEF, _ENC_STATIC.replace("(n >> 8) + 192", "(n >> 8) | 128"), 'C09.1')
+
 # =============================================================================================== C20
 M('C20', 'ops-loop-forward', PGP, "            for sig in reversed(self._signatures):\n                ops = sig.make_onepass()", "            for sig in self._signatures:\n                ops = sig.make_onepass()", 'C20.2')
 M('C20', 'trailing-sigs-reversed', PGP, "                yield self._mdc\n\n            for sig in self._signatures:\n                yield sig", "                yield self._mdc\n\n            for sig in reversed(self._signatures):\n                yield sig", 'C20.2')
